@@ -1,2 +1,366 @@
-(** C17 — proofs (placeholder of the vertical slice). *)
-Require Import Nib.C17.AnteFacts Nib.C17.MsgTree Nib.C17.Model Nib.C17.Spec.
+(** C17 — proofs: the commission cap is an invariant of every history, for message trees of any
+    depth and shape, given what the generated facts say about the decorator and the wasm handler. *)
+From Coq Require Import List Bool Arith ZArith Lia.
+Import ListNotations.
+Require Import Nib.C17.AnteFacts Nib.C17.MsgTree Nib.C17.MsgTreeFacts Nib.C17.Model Nib.C17.Spec.
+Local Open Scope Z_scope.
+
+(** ---------------------------------------------------------------- validator table *)
+Lemma find_set_same l a v : find_val (set_val l a v) a = Some v.
+Proof.
+  induction l as [|[b w] l IH]; simpl.
+  - now rewrite Nat.eqb_refl.
+  - destruct (Nat.eqb a b) eqn:E; simpl.
+    + now rewrite Nat.eqb_refl.
+    + now rewrite E.
+Qed.
+
+Lemma find_set_other l a b v : a <> b -> find_val (set_val l a v) b = find_val l b.
+Proof.
+  intro Hab. induction l as [|[k w] l IH]; simpl.
+  - destruct (Nat.eqb b a) eqn:E; [apply Nat.eqb_eq in E; congruence|reflexivity].
+  - destruct (Nat.eqb a k) eqn:E; simpl.
+    + apply Nat.eqb_eq in E. subst k.
+      destruct (Nat.eqb b a) eqn:E2; [apply Nat.eqb_eq in E2; congruence|reflexivity].
+    + destruct (Nat.eqb b k); [reflexivity|exact IH].
+Qed.
+
+Lemma changed_capped_refl s : changed_capped s s.
+Proof. intros a v H. now right. Qed.
+
+Lemma changed_capped_vals s0 s s' : vals s' = vals s -> changed_capped s0 s -> changed_capped s0 s'.
+Proof. unfold changed_capped. intros E H a v. rewrite E. apply H. Qed.
+
+Lemma changed_capped_cap s0 s : cap_ok s0 -> changed_capped s0 s -> cap_ok s.
+Proof.
+  intros H0 H a v Hf. destruct (H a v Hf) as [Hle|Hold]; [exact Hle|]. exact (H0 a v Hold).
+Qed.
+
+Lemma changed_capped_set s0 s a nv :
+  v_rate nv <= CAP25 -> changed_capped s0 s -> changed_capped s0 (with_vals s (set_val (vals s) a nv)).
+Proof.
+  intros Hr H b v. simpl. destruct (Nat.eq_dec a b) as [->|Hne].
+  - rewrite find_set_same. intro E. inversion E. subst. now left.
+  - rewrite find_set_other by exact Hne. apply H.
+Qed.
+
+(** ---------------------------------------------------------------- leaves *)
+Definition leaf_capped (l : leaf) : Prop :=
+  match l with
+  | CreateVal _ r _ _ => r <= CAP25
+  | EditVal _ (Some r) => r <= CAP25
+  | _ => True
+  end.
+
+Lemma leaf_run_capped s0 s s' l :
+  leaf_capped l -> changed_capped s0 s -> leaf_run s l = Some s' -> changed_capped s0 s'.
+Proof.
+  intros Hl Hs Hrun. destruct l as [op r mx ch|op [r|]|a b k|a]; simpl in *.
+  - destruct (r <? min_rate s); [discriminate|].
+    destruct (find_val (vals s) op); [discriminate|].
+    destruct (rates_valid r mx ch); [|discriminate].
+    inversion Hrun. subst. apply changed_capped_set; simpl; auto.
+  - destruct (find_val (vals s) op) as [v|]; [|discriminate].
+    destruct (now s - v_time v <? DAY); [discriminate|].
+    destruct (r <? 0); [discriminate|].
+    destruct (v_max v <? r); [discriminate|].
+    destruct (v_chg v <? r - v_rate v); [discriminate|].
+    destruct (r <? min_rate s); [discriminate|].
+    inversion Hrun. subst. apply changed_capped_set; simpl; auto.
+  - destruct (find_val (vals s) op); [|discriminate]. inversion Hrun. subst. exact Hs.
+  - inversion Hrun. subst. eapply changed_capped_vals; [|exact Hs]. reflexivity.
+  - inversion Hrun. subst. exact Hs.
+Qed.
+
+Lemma leaf_run_harmless s s' l :
+  leaf_kind l = K_GRANT \/ leaf_kind l = K_SEND -> leaf_run s l = Some s' -> vals s' = vals s.
+Proof.
+  intros Hk Hrun. destruct l as [op r mx ch|op ro|a b k|a]; simpl in *.
+  - destruct Hk; discriminate.
+  - destruct Hk; discriminate.
+  - inversion Hrun. reflexivity.
+  - inversion Hrun. reflexivity.
+Qed.
+
+(** ---------------------------------------------------------------- what must hold of the code *)
+Definition cmp_sound (m : option cmp_method) : Prop := m = Some CmpGT \/ m = Some CmpGTE.
+
+Definition cfg_ok (c : cfg) : Prop :=
+  cap c <= CAP25 /\ dec_on c = true /\ cmp_sound (dec_create c) /\ cmp_sound (dec_edit c) /\
+  dec_exec c = true /\ dec_rec c = true /\ wasm_check c = true /\ evm_only_eth c = true.
+
+Definition cmp_soundb (m : option cmp_method) : bool :=
+  match m with Some CmpGT | Some CmpGTE => true | _ => false end.
+
+Definition cfg_okb (c : cfg) : bool :=
+  (cap c <=? CAP25) && dec_on c && cmp_soundb (dec_create c) && cmp_soundb (dec_edit c) &&
+  dec_exec c && dec_rec c && wasm_check c && evm_only_eth c.
+
+Lemma cmp_soundb_sound m : cmp_soundb m = true -> cmp_sound m.
+Proof. destruct m as [[]|]; simpl; intro H; try discriminate; [now left|now right]. Qed.
+
+Lemma cfg_okb_sound c : cfg_okb c = true -> cfg_ok c.
+Proof.
+  unfold cfg_okb, cfg_ok. intro H.
+  repeat (apply andb_true_iff in H as [H ?]).
+  repeat split; auto using cmp_soundb_sound. lia.
+Qed.
+
+(** the ICA host allow-list admits only message types that cannot touch a commission *)
+Definition ica_safe (w : world) : Prop :=
+  forall k, w_ica_allow w k = true -> k = MKLeaf K_GRANT \/ k = MKLeaf K_SEND.
+
+(** proposals that governance passed would have passed the commission check *)
+Definition gov_trusted (c : cfg) (h : list event) : Prop :=
+  forall dt ms, In (EvGovPass dt ms) h -> existsb (dec_rejects c 0) ms = false.
+
+Lemma over_sound m bound r : m = CmpGT \/ m = CmpGTE -> over m bound r = false -> r <= bound.
+Proof. intros [->| ->]; simpl; lia. Qed.
+
+Lemma leaf_over_capped c l : cfg_ok c -> leaf_over c l = false -> leaf_capped l.
+Proof.
+  intros (Hcap & _ & Hc & He & _) H. destruct l as [op r mx ch|op [r|]|a b k|a]; simpl in *; auto.
+  - destruct Hc as [E|E]; rewrite E in H; apply over_sound in H; auto; lia.
+  - destruct He as [E|E]; rewrite E in H; apply over_sound in H; auto; lia.
+Qed.
+
+(** a recursive check does not depend on how many MsgExec levels were already entered *)
+Lemma dec_rejects_lvl c : dec_rec c = true -> forall t n, dec_rejects c n t = dec_rejects c 0 t.
+Proof.
+  intros Hrec t. induction t as [l|g cs IH|s0 ct cs IH|p cs IH|r a cs IH] using (tree_ind' leaf); intro n; try reflexivity.
+  cbn [dec_rejects]. rewrite Hrec. rewrite !orb_true_l.
+  destruct (dec_exec c); simpl; [|reflexivity].
+  apply existsb_ext_in. intros x Hx. rewrite Forall_forall in IH.
+  rewrite (IH x Hx (S n)). rewrite (IH x Hx 1%nat). reflexivity.
+Qed.
+
+(** ---------------------------------------------------------------- unfolding equations *)
+Lemma run_msg_leaf c w l s : run_msg c w (Leaf l) s = leaf_run s l.
+Proof. reflexivity. Qed.
+
+Lemma run_msg_exec c w g cs s :
+  run_msg c w (Exec g cs) s =
+  seq_opt (run_msg c w) (fun s c0 => authz_ok leaf leaf_signer leaf_kind st granted s g c0) cs s.
+Proof. reflexivity. Qed.
+
+Lemma run_msg_wasm c w snd ctr cs s :
+  run_msg c w (Wasm snd ctr cs) s =
+  if w_reflects w ctr snd && negb (Nat.eqb (List.length cs) 0)
+  then seq_opt (run_msg c w) (fun _ c0 => basic_msg c0 && Nat.eqb (signer_msg c0) ctr && wasm_admits c c0) cs s
+  else None.
+Proof. reflexivity. Qed.
+
+Lemma run_msg_gov c w p cs s :
+  run_msg c w (Gov p cs) s =
+  if forallb (fun c0 => basic_msg c0 && Nat.eqb (signer_msg c0) (w_gov w)) cs then Some s else None.
+Proof. reflexivity. Qed.
+
+Lemma run_msg_ica c w r a cs s :
+  run_msg c w (Ica r a cs) s =
+  match seq_opt (run_msg c w) (fun _ c0 => w_ica_allow w (kind_of leaf leaf_kind c0) && Nat.eqb (signer_msg c0) a) cs s with
+  | Some s' => Some s'
+  | None => Some s
+  end.
+Proof. reflexivity. Qed.
+
+(** ---------------------------------------------------------------- the tree lemma *)
+Lemma run_msg_inv c w s0 :
+  cfg_ok c -> ica_safe w ->
+  forall t s s', dec_rejects c 0 t = false -> changed_capped s0 s -> run_msg c w t s = Some s' ->
+  changed_capped s0 s'.
+Proof.
+  intros Hc Hi t.
+  pose proof Hc as (_ & _ & _ & _ & Hexec & Hrec & Hwasm & _).
+  induction t as [l|g cs IH|snd ct cs IH|p cs IH|r a cs IH] using (tree_ind' leaf); intros s s' Hd Hs Hrun.
+  - rewrite run_msg_leaf in Hrun. cbn [dec_rejects] in Hd.
+    eapply leaf_run_capped; eauto using leaf_over_capped.
+  - rewrite run_msg_exec in Hrun. cbn [dec_rejects] in Hd. rewrite Hexec, Hrec in Hd. simpl in Hd.
+    rewrite Forall_forall in IH.
+    eapply seq_opt_inv_weak; [|exact Hs|exact Hrun].
+    intros c0 Hin s1 s2 Hs1 _ Hr. eapply IH; eauto.
+    rewrite <- (dec_rejects_lvl c Hrec c0 1%nat). eapply existsb_false_forall; eauto.
+  - rewrite run_msg_wasm in Hrun.
+    destruct (w_reflects w ct snd && negb (Nat.eqb (List.length cs) 0)); [|discriminate].
+    rewrite Forall_forall in IH.
+    eapply seq_opt_inv_weak; [|exact Hs|exact Hrun].
+    intros c0 Hin s1 s2 Hs1 Hok Hr. eapply IH; eauto.
+    apply andb_true_iff in Hok as [_ Hadm]. unfold wasm_admits in Hadm. rewrite Hwasm in Hadm. simpl in Hadm.
+    destruct (dec_rejects c 0 c0); [discriminate|reflexivity].
+  - rewrite run_msg_gov in Hrun. match type of Hrun with (if ?b then _ else _) = _ => destruct b end; [|discriminate]. inversion Hrun. subst. exact Hs.
+  - rewrite run_msg_ica in Hrun.
+    match type of Hrun with match ?q with _ => _ end = _ => destruct q as [s2|] eqn:E end; inversion Hrun; subst; [|exact Hs].
+    eapply seq_opt_inv_weak; [|exact Hs|exact E].
+    intros c0 Hin s1 s3 Hs1 Hok Hr.
+    apply andb_true_iff in Hok as [Hal _]. apply Hi in Hal.
+    destruct c0 as [l| | | |]; simpl in Hal; try (destruct Hal; discriminate).
+    rewrite run_msg_leaf in Hr.
+    eapply changed_capped_vals; [|exact Hs1].
+    eapply leaf_run_harmless; [|exact Hr].
+    destruct Hal as [E1|E1]; inversion E1; auto.
+Qed.
+
+Lemma run_msgs_inv c w s0 ms :
+  cfg_ok c -> ica_safe w -> existsb (dec_rejects c 0) ms = false ->
+  forall s s', changed_capped s0 s -> run_msgs c w ms s = Some s' -> changed_capped s0 s'.
+Proof.
+  intros Hc Hi Hd s s' Hs Hrun. unfold run_msgs in Hrun.
+  eapply seq_opt_inv_weak; [|exact Hs|exact Hrun].
+  intros m Hin s1 s2 Hs1 _ Hr. eapply run_msg_inv; eauto. eapply existsb_false_forall; eauto.
+Qed.
+
+(** ---------------------------------------------------------------- transactions and histories *)
+Lemma ante_ok_checked c x : cfg_ok c -> ante_ok c x = true -> existsb (dec_rejects c 0) (t_msgs x) = false.
+Proof.
+  intros (_ & Hon & _ & _ & _ & _ & _ & Heth) H. unfold ante_ok in H.
+  destruct (route_tx c (t_ext x)); try discriminate.
+  - rewrite Hon in H. apply andb_true_iff in H as [_ H]. simpl in H.
+    destruct (existsb (dec_rejects c 0) (t_msgs x)); [discriminate|reflexivity].
+  - rewrite Heth in H. discriminate.
+Qed.
+
+Lemma deliver_changed c w s0 s x :
+  cfg_ok c -> ica_safe w -> changed_capped s0 s -> changed_capped s0 (fst (deliver c w s x)).
+Proof.
+  intros Hc Hi Hs. unfold deliver.
+  assert (Ht : changed_capped s0 (tick s (t_dt x))) by (eapply changed_capped_vals; [|exact Hs]; reflexivity).
+  destruct (ante_ok c x) eqn:Ha; [|exact Ht].
+  destruct (run_msgs c w (t_msgs x) (tick s (t_dt x))) as [s2|] eqn:Hr; [|exact Ht].
+  simpl. eapply run_msgs_inv; eauto using ante_ok_checked.
+Qed.
+
+Lemma step_changed c w s0 s e :
+  cfg_ok c -> ica_safe w ->
+  (forall dt ms, e = EvGovPass dt ms -> existsb (dec_rejects c 0) ms = false) ->
+  changed_capped s0 s -> changed_capped s0 (step c w s e).
+Proof.
+  intros Hc Hi Hg Hs. destruct e as [x|dt ms]; simpl.
+  - apply deliver_changed; auto.
+  - assert (Ht : changed_capped s0 (tick s dt)) by (eapply changed_capped_vals; [|exact Hs]; reflexivity).
+    match goal with |- context [if ?b then _ else _] => destruct b end; [|exact Ht].
+    destruct (run_msgs c w ms (tick s dt)) as [s2|] eqn:Hr; [|exact Ht].
+    eapply run_msgs_inv; eauto.
+Qed.
+
+Lemma history_changed c w s0 h :
+  cfg_ok c -> ica_safe w -> gov_trusted c h ->
+  forall s, changed_capped s0 s -> changed_capped s0 (run_history c w s h).
+Proof.
+  intros Hc Hi. induction h as [|e h IH]; intros Hg s Hs; simpl; [exact Hs|].
+  apply IH.
+  - intros dt ms Hin. apply (Hg dt ms). now right.
+  - apply step_changed; auto. intros dt ms ->. apply (Hg dt ms). now left.
+Qed.
+
+(** the cap over every reachable state *)
+Theorem cap_invariant c w s0 h :
+  cfg_ok c -> ica_safe w -> cap_ok s0 -> gov_trusted c h -> cap_ok (run_history c w s0 h).
+Proof.
+  intros Hc Hi H0 Hg. eapply changed_capped_cap; [exact H0|].
+  apply history_changed; auto using changed_capped_refl.
+Qed.
+
+(** the literal statement: an accepted (or any) transaction leaves every validator either untouched
+    or with a rate of at most 25 %, from ANY pre-state *)
+Theorem tx_never_raises_above_cap c w s x :
+  cfg_ok c -> ica_safe w -> changed_capped s (fst (deliver c w s x)).
+Proof. intros Hc Hi. apply deliver_changed; auto using changed_capped_refl. Qed.
+
+(** … and the same for whole histories without trusted-governance events *)
+Fixpoint only_txs (h : list event) : Prop :=
+  match h with [] => True | EvTx _ :: r => only_txs r | EvGovPass _ _ :: _ => False end.
+
+Lemma only_txs_gov c h : only_txs h -> gov_trusted c h.
+Proof.
+  induction h as [|[x|dt ms] h IH]; simpl; intros H dt' ms' Hin; try contradiction.
+  destruct Hin as [E|Hin]; [discriminate|]. eapply IH; eauto.
+Qed.
+
+Theorem cap_invariant_txs c w s0 h :
+  cfg_ok c -> ica_safe w -> cap_ok s0 -> only_txs h -> cap_ok (run_history c w s0 h).
+Proof. intros. apply cap_invariant; auto using only_txs_gov. Qed.
+
+(** ---------------------------------------------------------------- refutations (witnesses by computation) *)
+Definition breaks_cap (s : st) : Prop := exists a v, find_val (vals s) a = Some v /\ CAP25 < v_rate v.
+
+Lemma breaks_cap_not_ok s : breaks_cap s -> ~ cap_ok s.
+Proof. intros (a & v & Hf & Hlt) H. specialize (H a v Hf). lia. Qed.
+
+Definition world_plain : world :=
+  {| w_reflects := fun ctr snd => Nat.eqb ctr 10 && Nat.eqb snd 0; w_gov := 11%nat; w_ica_allow := fun _ => false |}.
+
+(** the ICA allow-list installed by upgrade v1.3.0 admits MsgExec *)
+Definition world_ica_exec : world :=
+  {| w_reflects := fun _ _ => false; w_gov := 11%nat;
+     w_ica_allow := fun k => match k with MKExec => true | _ => false end |}.
+
+Definition r90 : Z := 900000000000000000.
+Definition mk (signer : addr) (ms : list msg) : event :=
+  EvTx {| t_dt := 5; t_ext := NoExt; t_signer := signer; t_msgs := ms |}.
+
+(** decorator that inspects top-level messages only (before fix ac46b2c): MsgExec{self,[create 0.90]} *)
+Lemma refuted_before_fix :
+  exists h, only_txs h /\ breaks_cap (run_history cfg_before_fix world_plain (st0 0) h).
+Proof.
+  exists [mk 1 [Exec 1 [Leaf (CreateVal 1 r90 ONE ONE)]]]. split; [exact I|].
+  exists 1%nat. eexists. split; [vm_compute; reflexivity|vm_compute; reflexivity].
+Qed.
+
+(** a decorator that looks ONE level into MsgExec (like AnteDecoratorAuthzGuard does) is not enough *)
+Definition cfg_one_level : cfg :=
+  {| cap := CAP25; nonevm_known := true; evm_route := RouteEVM; other_route := RouteReject; evm_only_eth := true;
+     vb_on := true; sig_on := true; dec_on := true; dec_create := Some CmpGT; dec_edit := Some CmpGT;
+     dec_exec := true; dec_rec := false; wasm_check := true |}.
+
+Lemma refuted_one_level :
+  exists h, only_txs h /\ breaks_cap (run_history cfg_one_level world_plain (st0 0) h).
+Proof.
+  exists [mk 1 [Exec 1 [Exec 1 [Leaf (CreateVal 1 r90 ONE ONE)]]]]. split; [exact I|].
+  exists 1%nat. eexists. split; [vm_compute; reflexivity|vm_compute; reflexivity].
+Qed.
+
+(** recursive decorator but no check in the wasm handler (before fix 248a6e6) *)
+Lemma refuted_without_wasm_check :
+  exists h, only_txs h /\ breaks_cap (run_history cfg_no_wasm_check world_plain (st0 0) h).
+Proof.
+  exists [mk 0 [Wasm 0 10 [Leaf (CreateVal 10 r90 ONE ONE)]]]. split; [exact I|].
+  exists 10%nat. eexists. split; [vm_compute; reflexivity|vm_compute; reflexivity].
+Qed.
+
+(** the fixed code, but an ICA host whose allow-list admits MsgExec: the hypothesis [ica_safe] is needed *)
+Lemma refuted_ica_allows_exec :
+  exists h, only_txs h /\ breaks_cap (run_history cfg_fixed world_ica_exec (st0 0) h).
+Proof.
+  exists [mk 2 [Ica 2 7 [Exec 7 [Leaf (CreateVal 7 r90 ONE ONE)]]]]. split; [exact I|].
+  exists 7%nat. eexists. split; [vm_compute; reflexivity|vm_compute; reflexivity].
+Qed.
+
+(** the fixed code, a passed proposal that creates a validator for the gov account: [gov_trusted] is needed *)
+Lemma refuted_gov_untrusted :
+  exists h, breaks_cap (run_history cfg_fixed world_plain (st0 0) h).
+Proof.
+  exists [EvGovPass 5 [Leaf (CreateVal 11 r90 ONE ONE)]].
+  exists 11%nat. eexists. split; [vm_compute; reflexivity|vm_compute; reflexivity].
+Qed.
+
+(** ---------------------------------------------------------------- non-vacuity *)
+Example cfg_fixed_ok : cfg_ok cfg_fixed.
+Proof. apply cfg_okb_sound. vm_compute. reflexivity. Qed.
+
+Example world_plain_ica_safe : ica_safe world_plain.
+Proof. intros k H. discriminate. Qed.
+
+(** with the fixed code nested staking messages within the cap ARE accepted (the invariant is not kept by
+    rejecting everything): exec∘exec create at exactly 25 %, a wasm-dispatched create at 10 %, an edit after
+    24 h through exec *)
+Definition h_nonvacuous : list event := [
+  mk 1 [Exec 1 [Exec 1 [Leaf (CreateVal 1 CAP25 ONE ONE)]]];
+  mk 0 [Wasm 0 10 [Leaf (CreateVal 10 100000000000000000 ONE ONE)]];
+  EvTx {| t_dt := 86400; t_ext := NoExt; t_signer := 1; t_msgs := [Exec 1 [Leaf (EditVal 1 (Some 200000000000000000))]] |};
+  mk 1 [Exec 1 [Leaf (CreateVal 3 r90 ONE ONE)]]
+].
+
+Example cap_nonvacuous :
+  only_txs h_nonvacuous /\
+  map (fun p => (fst p, v_rate (snd p))) (vals (run_history cfg_fixed world_plain (st0 0) h_nonvacuous))
+  = [(1%nat, 200000000000000000); (10%nat, 100000000000000000)].
+Proof. split; [exact I|vm_compute; reflexivity]. Qed.
